@@ -195,8 +195,17 @@ func (e *Engine) callValue(s *State, fr *Frame, dst *ssa.Call, cc *ssa.CallCommo
 	}
 	switch f := fnv.(type) {
 	case *Builtin:
+		mergeN0 := 0 // merge_coord.go
+		if s.assumes != nil {
+			mergeN0 = s.assumes.n
+		}
 		rv, succ, done := e.callBuiltin(s, fr, dst, f.Name, cc, args, site)
 		if done {
+			if f.Name == "append" && len(succ) == 2 && e.mergeOn() { // merge_coord.go: in-place / reallocating append rejoined
+				if m := e.mergeStates(mergeN0, succ); m != nil {
+					return []*State{m}, true
+				}
+			}
 			return succ, true
 		}
 		setResult(rv)
@@ -335,6 +344,9 @@ func (e *Engine) callFunction(s *State, fr *Frame, dst *ssa.Call, f *ssa.Functio
 	if dst == nil {
 		// deferred call: result ignored; mark so Return does not bind
 		nf.callSite = nil
+	}
+	if e.mergeOn() && dst != nil { // merge_coord.go: run the callee to its returns and merge them
+		return e.inlineMerged(s, len(s.frames)-1, fr)
 	}
 	return nil, false
 }
